@@ -53,7 +53,7 @@ EXPLANATION = (
 NONTRIVIAL_RULE = "pythonic_equiv: at least one toggle on; discovery: at least one user name referenced; camel_map: non-empty string"
 BOUNDS = {
     "pythonic_equiv": "12 feature toggles; each item varies the toggles of 2-3 groups over all their values with the others at a fixed baseline (all off / all on); 3 Python styles; 5 fixed event sequences; 2 builds per definition",
-    "discovery": "one of 3 action slots (entry / transition / invoke.onDone) x 12 references with the other slots at a plain name, 8 guard forms (composites up to depth 3), 4 service forms; offered subset = symbolic bit per implementation the config can refer to (others offered); spelling snake/camel; provider kind in {instance, module}",
+    "discovery": "one of 4 action slots (entry / transition / invoke.onDone / a transition whose event name equals a named delay of the same state) x 12 references with the other slots at a plain name, 8 guard forms (composites up to depth 3), 4 service forms; offered subset = symbolic bit per implementation the config can refer to (others offered); spelling snake/camel; provider kind in {instance, module}",
     "camel_map": "symbolic str, length <= L (item label)",
     "rebuild_independence": "State objects shared by two build_machine() calls with different transition lists (3 plans), 4 forms of State.on (all-string shorthand, object values, mixed), flat / nested, user-side context mutation between builds; the user's definition objects must be unchanged and each build equal to its own JSON denotation",
     "subclass_logic": "MachineLogic subclass chains of depth 1-3; the level that defines the action / guard / service symbolic (or every level = overrides)",
@@ -143,7 +143,7 @@ def json_config(T: Dict[str, int], ctx: Dict[str, Any]) -> Dict[str, Any]:
         a["exit"] = ["markThree"]
     go: Any = _go_entry(T, "b")
     if T["multi"]:
-        go = [{"target": "c", "guard": "isOdd"}, go]
+        go = [{"target": "c", "guard": "isOdd"}, go, {"target": "c", "guard": "isOk", "actions": ["markThree"]}]
     a["on"] = {"GO": go}
     if T["tm"]:
         a["tags"] = ["hot", "busy"]
@@ -182,7 +182,7 @@ def json_config(T: Dict[str, int], ctx: Dict[str, Any]) -> Dict[str, Any]:
         if T["inv"]:
             b["invoke"] = {"src": "fetchData", "id": "f", "onDone": {"target": "a", "actions": ["markTwo"]}}
         if T["multi"]:
-            a["on"]["GO"] = [{"target": "wf", "guard": "isOdd"}, _go_entry(T, "b")]
+            a["on"]["GO"] = [{"target": "wf", "guard": "isOdd"}, _go_entry(T, "b"), {"target": "wf", "guard": "isOk", "actions": ["markThree"]}]
         states = {outer_name: outer, "W": W, "c": c, "d": d}
     else:
         # parallel state X with two regions; region r1 holds a/b
@@ -196,7 +196,7 @@ def json_config(T: Dict[str, int], ctx: Dict[str, Any]) -> Dict[str, Any]:
         if T["inv"]:
             b["invoke"] = {"src": "fetchData", "id": "f", "onDone": {"target": "a", "actions": ["markTwo"]}}
         if T["multi"]:
-            a["on"]["GO"] = [{"target": "b", "guard": "isOdd", "actions": ["markThree"]}, _go_entry(T, "b")]
+            a["on"]["GO"] = [{"target": "b", "guard": "isOdd", "actions": ["markThree"]}, _go_entry(T, "b"), {"target": "b", "guard": "isOk", "actions": ["markThree"]}]
         X: Dict[str, Any] = {"type": "parallel", "states": {"r1": r1, "r2": r2}, "on": {"OUT": {"target": "c"}}}
         if T["dn"]:
             X["onDone"] = {"target": "c"}
@@ -269,8 +269,10 @@ def _state_objects(T: Dict[str, int]) -> Tuple[List[Any], List[Any], Optional[An
     go_target = a if T["tg"] == 4 else b
     if shape == 0:
         if T["multi"]:
-            trs.append(transition(a, "GO", c, guard="isOdd"))
-        trs.append(transition(a, "GO", go_target, **go_kwargs()))
+            # three candidates for one event, combined right-nested: t1 | (t2 | t3) must keep the order t1, t2, t3
+            trs.append(transition(a, "GO", c, guard="isOdd") | (transition(a, "GO", go_target, **go_kwargs()) | transition(a, "GO", c, guard="isOk", actions=["markThree"])))
+        else:
+            trs.append(transition(a, "GO", go_target, **go_kwargs()))
         trs.append(transition(b, "NEXT", c))
         trs.append(c.to(a, event="BACK") | c.to(d, event="END"))
         tops = [a, b, c, d]
@@ -285,8 +287,9 @@ def _state_objects(T: Dict[str, int]) -> Tuple[List[Any], List[Any], Optional[An
         W = State("W", states=kids, **wk)
         outer = State("a" if shape == 1 else "s", initial=True)
         if T["multi"]:
-            trs.append(transition(a, "GO", wf, guard="isOdd"))
-        trs.append(transition(a, "GO", go_target, **go_kwargs()))
+            trs.append(transition(a, "GO", wf, guard="isOdd") | (transition(a, "GO", go_target, **go_kwargs()) | transition(a, "GO", wf, guard="isOk", actions=["markThree"])))
+        else:
+            trs.append(transition(a, "GO", go_target, **go_kwargs()))
         trs.append(transition(b, "NEXT", a))
         trs.append(transition(outer, "GO", W))
         trs.append(outer.internal("PING", actions=["markThree"]))
@@ -304,8 +307,9 @@ def _state_objects(T: Dict[str, int]) -> Tuple[List[Any], List[Any], Optional[An
             xk["on_done"] = "c"
         X = State("X", parallel=True, initial=True, states=[r1, r2], **xk)
         if T["multi"]:
-            trs.append(transition(a, "GO", b, guard="isOdd", actions=["markThree"]))
-        trs.append(transition(a, "GO", go_target, **go_kwargs()))
+            trs.append(transition(a, "GO", b, guard="isOdd", actions=["markThree"]) | (transition(a, "GO", go_target, **go_kwargs()) | transition(a, "GO", b, guard="isOk", actions=["markThree"])))
+        else:
+            trs.append(transition(a, "GO", go_target, **go_kwargs()))
         trs.append(transition(b, "NEXT", a))
         trs.append(transition(u, "GO", v))
         trs.append(transition(X, "OUT", c))
@@ -597,8 +601,8 @@ def discovery(slot: int, a: int, s: int, mask: int, spell: bool) -> bool:
     from xstate_statemachine.exceptions import ImplementationMissingError
 
     kind = P.get("kind", 0)
-    refs: List[Any] = ["doIt", "doIt", "doIt"]
-    refs[P["slot"] if "slot" in P else pick(slot, 3)] = ACTION_REFS[pick(a, len(ACTION_REFS))]
+    refs: List[Any] = ["doIt", "doIt", "doIt", "doIt"]
+    refs[P["slot"] if "slot" in P else pick(slot, 4)] = ACTION_REFS[pick(a, len(ACTION_REFS))]
     gf = GUARD_FORMS[P["gfix"]]
     sf = SERVICE_FORMS[pick(s, len(SERVICE_FORMS))]
     # only the implementations the config can possibly refer to get a symbolic "offered" bit (the others are offered)
@@ -646,7 +650,10 @@ def discovery(slot: int, a: int, s: int, mask: int, spell: bool) -> bool:
     cfg = {
         "id": "dm", "initial": "a",
         "states": {
-            "a": {"entry": [refs[0]], "on": {"GO": {"target": "b", "guard": gf, "actions": [refs[1]]}}},
+            # slot 3: TIMEOUT is an event of 'a' AND the name of a delay of 'a' (after: {"TIMEOUT": ...}) - two different maps
+            "a": {"entry": [refs[0]], "on": {"GO": {"target": "b", "guard": gf, "actions": [refs[1]]},
+                                             "TIMEOUT": {"target": "c", "actions": [refs[3]]}},
+                  "after": {"TIMEOUT": {"target": "c"}}},
             "b": {"invoke": {"src": sf, "onDone": {"target": "c", "actions": [refs[2]]}}, "on": {"NOPE": {"target": "c"}}},
             "c": {},
         },
@@ -1023,10 +1030,10 @@ def items(tier: str, seed: int) -> List[Dict[str, Any]]:
     for gfix in range(len(GUARD_FORMS)):
         for kind in (0, 1):
             if quick:
-                out.append({"ob": "discovery", "params": {"gfix": gfix, "kind": kind, "slot": (gfix + kind) % 3}, "timeout": 400,
-                            "label": f"discovery[guard form {gfix},{'provider' if kind == 0 else 'module'},slot {(gfix + kind) % 3}]"})
+                out.append({"ob": "discovery", "params": {"gfix": gfix, "kind": kind, "slot": (gfix + kind) % 4}, "timeout": 400,
+                            "label": f"discovery[guard form {gfix},{'provider' if kind == 0 else 'module'},slot {(gfix + kind) % 4}]"})
             else:
-                for slot in range(3):
+                for slot in range(4):
                     out.append({"ob": "discovery", "params": {"gfix": gfix, "kind": kind, "slot": slot}, "timeout": 2400,
                                 "label": f"discovery[guard form {gfix},{'provider' if kind == 0 else 'module'},slot {slot}]"})
     out.append({"ob": "precedence", "params": {}, "timeout": 300, "label": "precedence"})
